@@ -125,9 +125,13 @@ R.contract(
         ("else-empty", "implies(not " + HAS_A + " and not (agent_id in state['graphs_by_agent']), len(result) == 0)"),
     ],
     raises="none",
+    # with this state shape an agent entry is a dict (no .graphs attribute) and nothing in the try block raises
+    unreachable_ok=["g = getattr(a, 'graphs')", "pass"],
 )
 R.contract(
     OP + "_resolve_graphs_for_agent", "C10", name="_resolve_graphs_for_agent[empty dict state]", callee=False,
+    # no 'agents' / 'graphs_by_agent' to look at with this state shape; nothing raises
+    unreachable_ok=["if isinstance(agents, dict)", "if isinstance(gba, dict)", "pass"],
     types={"state": "OStateE", "agent_id": "str"},
     returns="Set[str]",
     ensures=[("empty", "len(result) == 0")],
@@ -135,6 +139,8 @@ R.contract(
 )
 R.contract(
     OP + "_resolve_graphs_for_agent", "C10", name="_resolve_graphs_for_agent[state None]", callee=False,
+    # no 'agents' / 'graphs_by_agent' to look at with this state shape; nothing raises
+    unreachable_ok=["if isinstance(agents, dict)", "if isinstance(gba, dict)", "pass"],
     types={"state": "None", "agent_id": "str"},
     returns="Set[str]",
     ensures=[("empty", "len(result) == 0")],
@@ -154,6 +160,7 @@ R.contract(
     types={"buf": "TurnBufI"},
     ensures=[], pure_result="(0, buf['turn_id'], buf['slice_idx'])",
     raises="none",
+    unreachable_ok=["return (1, str(tid)"],     # int(tid) cannot fail for an int turn id
 )
 R.contract(
     KEYFN, "C10", name="_sort_turn_buffers._key[str turn_id]", callee=False,
